@@ -29,8 +29,8 @@ package main
 //     wrong-closer         the wrong closing bracket
 //     unclosed-at-eof      the end of input (the last rune or the position just after it)
 //     bad-escape           the escape sequence (its backslash or the character after it)
-//     unterminated-string  the literal's opening quote, or the place where it breaks off (the newline
-//                          or the end of input)
+//     unterminated-string  the literal's opening quote, or the place where it breaks off (its last rune,
+//                          or the newline / the end of input right after it)
 //   run time (one failing operation, everything else succeeds or is guarded)
 //     div-zero, dyn-binop, dyn-in-range, bad-regex   the operator
 //     dyn-unop                                      the unary operator
@@ -1090,7 +1090,7 @@ func (o *c13Orc) syntaxFault(kind string, seed int64) bool {
 		}
 		rs := []rune(last.text)
 		last.text = string(rs[:len(rs)-1])
-		cs.what = "the unterminated string literal (its opening quote, or the newline / end of input where it breaks off)"
+		cs.what = "the unterminated string literal (its opening quote, its last rune, or the newline / end of input where it breaks off)"
 		accept = func() []c13Pos {
 			out := []c13Pos{c13PosOfTok(last)}
 			runes := []rune(cs.src)
@@ -1099,7 +1099,12 @@ func (o *c13Orc) syntaxFault(kind string, seed int64) bool {
 				k++
 			}
 			l, c := c13LcOf(runes, k)
-			return append(out, c13Pos{l, c})
+			out = append(out, c13Pos{l, c})
+			if k-1 > last.off { // the last rune of the broken literal
+				l, c = c13LcOf(runes, k-1)
+				out = append(out, c13Pos{l, c})
+			}
+			return out
 		}
 	}
 	cs.src = c13Layout(toks, rand.New(rand.NewSource(seed+4)), rng.Intn(5) > 0)
